@@ -205,8 +205,45 @@ JudgeKeysets(Sx, e) ==
         \cup (IF e.r.ok /\ ~(okList /\ okActive) THEN {<<"C09", "keyset-listing">>} ELSE {}),
        {Sx})
 
+\* C07: the process died inside operation e.a.op (facts e.a.a; backend calls made so far e.a.ln) and
+\* was restarted.  The in-flight operation had either all or none of the effect of its current
+\* phase: a melt may be found locked (inputs pending, quote PENDING: a later poll resolves it per the
+\* C05 table) or resolved; everything else is all-or-nothing.
+\* after a success report the inputs may already be SPENT while the quote is still PENDING: nothing is
+\* lost or duplicated and the next poll completes it (the statement of C07 does not forbid it)
+SpentNotYetPaid(S1, q, how) ==
+  IF how = "success" /\ q \in DOMAIN S1.lq /\ S1.lq[q].st = "PENDING"
+  THEN {[ApplyMeltOutcome(S1, q, <<"PAID", "spent">>) EXCEPT !.lq[q].st = "PENDING", !.lq[q].pre = "none"]}
+  ELSE {}
+
+CrashOutcomes(Sx, op, a, ln) ==
+  CASE op = "swap" -> {Sx} \cup (IF SwapCauses(Sx, a) = {} THEN {SwapEffect(Sx, a, << >>)} ELSE {})
+    [] op = "mint" ->
+         IF a.q \notin DOMAIN Sx.mq THEN {Sx}
+         ELSE LET Ss == SyncMq(Sx, a.q, a.lnerr)
+              IN {Sx, Ss} \cup (IF MintCauses(Sx, a) = {} THEN {MintEffect(Ss, a, << >>)} ELSE {})
+    [] op = "melt" ->
+         IF a.q \notin DOMAIN Sx.lq \/ MeltCauses(Sx, a) # {} THEN {Sx}
+         ELSE LET S1 == [MarkInputs(Sx, a.ins, "pending", a.q) EXCEPT !.lq[a.q].st = "PENDING"]
+              IN {Sx, S1}
+                 \cup (IF Sx.lq[a.q].kind = "int" THEN {InternalSettle(S1, a.q)}
+                       ELSE {ApplyMeltOutcome(S1, a.q, oc) : oc \in C05Allowed(MeltHow(ln))}
+                            \cup SpentNotYetPaid(S1, a.q, MeltHow(ln)))
+    [] op = "pollmelt" -> {Sx} \cup PollOutcomes(Sx, a.q, ln) \cup SpentNotYetPaid(Sx, a.q, PollHow(ln, a.q))
+    [] op = "checkstate" ->
+         LET qs == {Sx.proof[a.ys[i]].by : i \in {j \in DOMAIN a.ys : a.ys[j] \in DOMAIN Sx.proof /\ Sx.proof[a.ys[j]].st = "pending"}}
+         IN {Sx} \cup UNION {PollOutcomes(Sx, q, ln) \cup SpentNotYetPaid(Sx, q, PollHow(ln, q)) : q \in qs}
+    [] op = "rotate" -> {Sx, Rotate(Sx, a.fee)}
+    [] op = "restart" -> {Sx} \cup (IF a.rotate THEN {Rotate(Sx, a.fee)} ELSE {})
+    [] OTHER -> {Sx}
+
+JudgeCrash(Sx, e) ==
+  J(IF e.r.ok THEN {} ELSE {<<"C07", "mint-cannot-restart">>},
+    IF e.r.ok THEN CrashOutcomes(Sx, e.a.op, e.a.a, e.a.ln) ELSE {Sx})
+
 Judge(Sx, e) ==
   CASE e.ev = "swap" -> JudgeSwap(Sx, e)
+    [] e.ev = "crash" -> JudgeCrash(Sx, e)
     [] e.ev = "mintquote" -> JudgeMintQuote(Sx, e)
     [] e.ev = "settle" -> J({}, {LnSettle(Sx, e.a.q)})
     [] e.ev = "notify" -> J({}, {Notify(Sx, e.a.q)})
@@ -225,7 +262,8 @@ Judge(Sx, e) ==
 
 \* attribution of a projection mismatch
 DiffProp(e, d) ==
-  IF ~e.r.ok THEN "C06"
+  IF e.ev = "crash" \/ e.a.fault THEN "C07"
+  ELSE IF ~e.r.ok THEN "C06"
   ELSE CASE d = "proofs" -> IF e.ev \in {"melt", "pollmelt", "checkstate"} THEN "C05" ELSE "C15"
          [] d = "sigs" -> "C15"
          [] d = "witness" -> "C15"
